@@ -507,6 +507,21 @@ def run_scope(chk, rule, prog, fids, what, floor=1, kinds=None):
                             ok = True
                     if not ok:
                         missing.append(callee)
+                seq = e["requires"].get("sequence", [])
+                if seq:
+                    # calls that must happen in this order on every path to the site (each one's return dominates the next call,
+                    # the last one's return dominates the site)
+                    def chain(i, after):
+                        for bi2, t2 in body.calls():
+                            if t2.get("res") == seq[i] and t2["t"] is not None and (after is None or body.dominates(after, bi2)):
+                                if i + 1 == len(seq):
+                                    if bi2 != o.bb and body.dominates(t2["t"], o.bb):
+                                        return True
+                                elif chain(i + 1, t2["t"]):
+                                    return True
+                        return False
+                    if not chain(0, None):
+                        missing.append("the call sequence " + " -> ".join(x.split("::")[-1] for x in seq))
                 for rxs, want in e["requires"].get("implied", []):
                     # the condition under which the site is reached must imply the listed tests (the audit's premise is a
                     # guard in the same function)
